@@ -121,6 +121,11 @@ func (c *ClientChannel) authenticateSession(ctx context.Context, identity Identi
 }
 
 func (c *ClientChannel) sendFinishingSession(ctx context.Context) error {
+	// The transports do not support concurrent senders, so the finishing
+	// session should not be sent while another envelope is being sent.
+	c.sendMu.Lock()
+	defer c.sendMu.Unlock()
+
 	if err := c.ensureState(SessionStateEstablished, "finish the session"); err != nil {
 		return err
 	}
